@@ -84,9 +84,9 @@ theorem run_filter {σ π Out : Type} (M : Machine σ π Out) (ops : List (Multi
       have := ih (MultiRecv.step M s (.removeListener id)).1 c b (by rw [hf]; exact h) hc hb
       rw [hf] at this
       simpa only [fops, MultiRecv.run] using this
-    | drop =>
-      have hf : (MultiRecv.step M s .drop).1.filter = s.filter := congrArg Ctl.filter hctl
-      have := ih (MultiRecv.step M s .drop).1 c b (by rw [hf]; exact h) hc hb
+    | drop i =>
+      have hf : (MultiRecv.step M s (.drop i)).1.filter = s.filter := congrArg Ctl.filter hctl
+      have := ih (MultiRecv.step M s (.drop i)).1 c b (by rw [hf]; exact h) hc hb
       rw [hf] at this
       simpa only [fops, MultiRecv.run] using this
 
